@@ -10,18 +10,24 @@ def run():
     N, LOOP = (5, 12) if thorough else (3, 8)
     oob = {}
 
+    import crudlemmas
+
     def obl(S):
         o, f, ob = veclemmas.obligations(S, N=N, LOOP=LOOP)
         oob.update(ob)
-        return o, f
+        o2, f2 = crudlemmas.obligations(S)
+        return o + [x for x in o2 if "C18" in x.props], f + f2
+
+    def replayer(o, model):
+        return crudlemmas.replayer(o, model) if ":crud::remove:" in o.role else veclemmas.replayer(o, model)
     ev.cov["bounds"] = [f"one array level: length 0..{N} (enumerated), elements opaque; index: symbolic isize over its FULL range",
                         f"padding loops: at most {LOOP} iterations per path; indices needing more padding end in 'outside the bound' paths (counted below), not in a verdict",
-                        "nested paths, objects (BTreeMap) and pruning on removal are NOT encoded: crud::{get,insert,remove} recursion is outside this check"]
+                        "one level of the recursive crud::remove driver (generic collection, oracles for the collection's operations and the recursive call): nothing-found changes nothing, pruning exactly when asked and the child became empty; crud::{get,insert} recursion and the BTreeMap side of ValueCollection are NOT encoded"]
     ev.cov["trusted_base"] = ["rustc nightly -Zunpretty=mir output", "MIR semantics in lib/mirse/symex.py",
                               "Vec/slice models in lib/mirse/veclemmas.py (len, push, insert, remove, index_mut, get, mem::replace)", "z3"]
     ev.cov["checker_cmd"] = "python3-vt /verif/lib/check.py C18"
     ev.assumptions = ["Vec<T> behaves as the list model", "array length <= isize::MAX"]
-    viol, inconc, known = kernelcheck.check("C18", ev, obl, veclemmas.replayer, cvc5_cross=thorough)
+    viol, inconc, known = kernelcheck.check("C18", ev, obl, replayer, cvc5_cross=thorough)
     ev.cov["paths_outside_loop_bound"] = oob
     # model_checking-style counters: states = symbolic paths explored, transitions = solver-decided branch points
     ev.cov["states"] = max(1, ev.cov["obligations"])
